@@ -153,6 +153,7 @@ class BLEUScoreE(Entry):
     tol = TOL32
     min_batch = 1
     min_compute = 1
+    batching_free = False   # the too-short test is per update: re-batching can turn an accepted stream into a raising one
 
     def configs(self, rng, quick=True):
         return [
